@@ -14,6 +14,8 @@ done
 echo "suite-with-patch: $suite"
 git -C $WT checkout -q -- . ; git -C $WT clean -qfd -e out
 [ -n "$(git -C /repo status --porcelain --untracked-files=no)" ] && { echo "/repo not clean"; exit 2; }
+# /repo may have moved on (a fix: commit) since the sub-agent's worktree was cut: a hand-rebased copy wins
+[ -f "${P%.diff}.rebased.diff" ] && P="${P%.diff}.rebased.diff"
 git -C /repo apply "$P" || { echo "PATCH DOES NOT APPLY to /repo"; exit 2; }
 for c in "$@"; do
   out=$(cd /verif && timeout 900 ./check $c 2>&1 | grep -E "^(VIOLATION|OK|KNOWN|broken)" | head -6)
